@@ -654,6 +654,9 @@ def alias_join(g):
                 o_["at"] = "?j"
             else:
                 o_ = bqlgen.O(pid=g.rng.choice(bqlgen.PIDS), ab="?j")
+        elif kind == "I" and i > 0 and g.rng.random() < 0.3:
+            # the id string meets a plain OBJECT binding: a text literal that spells the id is another value (no join)
+            o_ = bqlgen.O(b="?j")
         elif kind == "I":
             pos = g.rng.choice(["s.id", "p.id", "o.id"])
             {"s.id": s_, "p.id": p_, "o.id": o_}[pos]["id"] = "?j"
@@ -664,7 +667,8 @@ def alias_join(g):
             s_ = bqlgen.S(c=g.rng.choice(bqlgen.NODE_CONSTS), id=s_["id"], ty=s_["ty"])
         cls.append(bqlgen.clause(s_, p_, o_))
     must = [t for grp in g.rng.sample(NEAR_GROUPS, 2) for t in grp]
-    content = sorted(set(g.content(8, 16)) | set(must) | set(g.rng.sample([15, 16, 17, 2, 3, 13, 14, 20, 23, 24], 4)))
+    content = sorted(set(g.content(8, 16)) | set(must) | set(g.rng.sample([15, 16, 17, 2, 3, 13, 14, 20, 23, 24], 4))
+                     | ({11, 12, 24, 25} if kind == "I" else set()))     # text literals "a", "b", "ab" next to nodes with those ids
     # the known finding oid-alias-unchecked needs a node-object ID alias repeated INSIDE one clause: not produced here
     return {"clauses": cls, "names": bqlgen.pattern_names(cls), "graphs": g.split(content, g.rng.choice([1, 1, 2])),
             "glo": 0, "ghi": 0, "alt": False, "content": content}
@@ -1118,10 +1122,30 @@ def check_meta(v, tier, d):
     n = 800 if tier == "quick" else 10000
     b = Batch()
     plans = []
+    # a third of the base queries come from the pattern families of C03 (joins through extracted values, constant
+    # clauses whose alias repeats a binding, binding + alias both bound, re-matching clauses, ...), as far as every
+    # clause has a binding or is fully specified and no bound is written with a binding (those are order dependent
+    # by definition)
+    def usable(q):
+        for c in q["clauses"]:
+            ns = bqlgen.names_of(c)
+            if not ns and not bqlgen.specific(c):
+                return False
+            if len(ns) != len(set(ns)) and c["o"]["id"] in [x for x in ns if ns.count(x) > 1]:
+                return False
+            if c["p"].get("lb") or c["p"].get("ub") or c["o"].get("lb") or c["o"].get("ub"):
+                return False
+        return len(q["clauses"]) <= 3
+    rich = [q for q in gen_c03(Gen(vlib.seed() * 7919 + 141), n) if usable(q)]
     for _ in range(n):
         base = clean_base(g, max_clauses=3, p_alias=0.15)
         if g.rng.random() < 0.15:
             base = broad_base(g)
+        elif rich and g.rng.random() < 0.35:
+            q = rich.pop()
+            content = sorted({t for gr in q["graphs"] for t in gr})
+            base = {"clauses": q["clauses"], "names": bqlgen.pattern_names(q["clauses"]), "graphs": [content], "glo": q["glo"],
+                    "ghi": q["ghi"], "alt": q.get("alt", False), "content": content}
         if g.rng.random() < 0.3:
             # add a fully specified clause (a stored triple, sometimes a missing one), with or without
             # an alias, at a random position: it holds or not whatever its position
